@@ -21,6 +21,7 @@ RULE = ('cases = one continuous path of 2-8 Line/CubicBezier segments, open or c
         'degrees of 0/180 except joints that are smooth by construction), segment lengths 0.01x-100x maxjointsize, maxjointsize in '
         '{0.1, 3, 50}, tightness in {0.1, 1, 1.99}; cubics with a control point on the joint as a separate class; single-segment '
         'paths; distinct by spec + parameters; non-trivial if the smoothed_path post-condition reached a verdict')
+RULE += '; corners of 1e-4..1e-2 rad, neighbours 10..300 times shorter, short non-zero handles, closed inputs with a smooth closing joint'
 ASSUMPTIONS = ['reference tangent at a segment end = direction of the nearest distinct control point',
                'distance to the original is measured against 1024 samples per input segment (slack: half the sample spacing)',
                'kinks(): a joint is a kink if the reference tangents differ by more than 2e-4 rad, not a kink below 1e-4 rad (the library\'s '
